@@ -568,6 +568,18 @@ fn metadata_alts(tree: &Value) -> Vec<Alt> {
             collect_strings(c, &mut strings);
         }
     }
+    // derived names: a declared id extended by a suffix, and every proper `/`-prefix of it (ids
+    // that are NOT in the verifier's table set but look related to one that is)
+    for st in strings.clone() {
+        if st.contains('/') || st.contains('_') {
+            strings.push(format!("{st}/alt"));
+            let mut p = st.as_str();
+            while let Some(i) = p.rfind('/') {
+                p = &p[..i];
+                strings.push(p.to_string());
+            }
+        }
+    }
     strings.sort();
     strings.dedup();
     let mut out = vec![];
